@@ -75,6 +75,9 @@ func (s *SPNEGO) AcceptSecContext(ct gssapi.ContextToken) (bool, context.Context
 	t.settings = s.serviceSettings
 	var oid asn1.ObjectIdentifier
 	if t.Init {
+		if len(t.NegTokenInit.MechTypes) < 1 {
+			return false, ctx, gssapi.Status{Code: gssapi.StatusDefectiveToken, Message: "SPNEGO NegTokenInit does not list any mechanism type"}
+		}
 		oid = t.NegTokenInit.MechTypes[0]
 	}
 	if t.Resp {
